@@ -178,6 +178,10 @@ func (p *parser) recover(errp *error) {
 
 // stopParse terminates parsing.
 func (p *parser) stopParse() {
+	if p.lex != nil {
+		// Drain the remaining tokens so the lexing goroutine exits.
+		p.lex.drain()
+	}
 	p.lex = nil
 }
 
